@@ -27,6 +27,15 @@ def main():
     a = ap.parse_args()
     seed = int(os.environ.get('VERIF_SEED', '0') or 0)
     pid = a.pid.upper()
+    # watchdog: a library call that never returns must not hang the check (the exception surfaces inside the library frame
+    # and is then reported like any other exception raised there)
+    import signal
+    budget = int(os.environ.get('VERIF_TIMEOUT', '2400' if a.tier == 'quick' else '21600'))
+
+    def on_alarm(signum, frame):
+        raise TimeoutError('no result within %d s (check watchdog)' % budget)
+    signal.signal(signal.SIGALRM, on_alarm)
+    signal.alarm(budget)
     try:
         import teneva
         if not os.path.abspath(teneva.__file__).startswith(os.path.abspath(REPO) + '/'):
